@@ -6,6 +6,7 @@
 package main
 
 import (
+	"runtime"
 	"encoding/json"
 	"fmt"
 	"io"
@@ -30,7 +31,9 @@ func main() {
 	fmt.Sscan(os.Getenv("C20_SEED"), &seed)
 	rep := free.Report{Probes: map[string]int{}}
 	exitErr := exec.Command("/bin/sh", "-c", "exit 2").Run()
+	baseline := runtime.NumGoroutine()
 	for i := 0; i < runs && len(rep.Violations) < 3; i++ {
+		free.Quiesce(baseline)
 		r := kernel.NewRand(kernel.Mix(seed, "C20-tier2", i))
 		w := free.WorldOf(i % 512)
 		n := r.Range(2, 8)
@@ -105,13 +108,17 @@ func main() {
 		}
 		close(start)
 		wg.Wait()
+		free.Quiesce(baseline)
+		mu.Lock()
+		seen := append([]free.Event(nil), events...)
+		mu.Unlock()
 		rep.Runs++
 		rep.Requests += len(reqs)
-		if clause, detail := free.Judge(w, events, results); clause != "" {
-			hist, _ := json.Marshal(events)
+		if clause, detail := free.Judge(w, seen, results); clause != "" {
+			hist, _ := json.Marshal(seen)
 			rep.Violations = append(rep.Violations, free.Finding{Clause: clause, Detail: fmt.Sprintf("%s\nworld %s\nrequests %v\nexec history %s", detail, w, reqs, hist)})
 		}
-		for _, e := range events {
+		for _, e := range seen {
 			rep.Probes[e.Kind+"_"+e.Tool]++
 		}
 	}
